@@ -259,6 +259,7 @@ package lua
 // pushCallFrame: a non-function or a full call stack is a Lua error raised BEFORE the frame is pushed, so
 // callFrameStack.Push's precondition holds and its Go panic is unreachable (C12); the frame set-up is initCallFrame's.
 //@ func (*LState).pushCallFrame [C02 C10 C12]
+//@ logged
 //@ requires ls != nil && ls.reg != nil && Inv_reg(ls.reg) && ls.stack != nil && $inv(ls.stack) && cfValid(ls, cf) && fn != nil
 //@ ensures  $inv(ls.stack) && $sp(ls.stack) == old($sp(ls.stack)) + 1 && $sp(ls.stack) >= 1 && ls.currentFrame == $frame(ls.stack, old($sp(ls.stack))) && ls.currentFrame != nil && Inv_reg(ls.reg) && ls.reg == old(ls.reg)
 //@ ensures  ls.currentFrame.Fn.IsG ==> ls.currentFrame.LocalBase == cf.LocalBase && ls.reg.top == cf.LocalBase + cf.NArgs + ite(meta, 1, 0)
@@ -770,3 +771,14 @@ package lua
 //@ loop 1 invariant 1 <= i && i <= nelem + 1 && nelem == old(slN(L, inst)) && offset == off0 && table == old(tab(R(L, opA(inst)))) && Inv_arr(table) && Inv_hash(table) && L.reg == old(L.reg) && top(L) == old(top(L)) && arrid(L.reg.array) == old(arrid(L.reg.array)) && arrid(table.array) != arrid(L.reg.array) && arrid(table.keys) != arrid(L.reg.array) && lb(L) == old(lb(L)) && L.currentFrame == old(L.currentFrame) && Inv_reg(L.reg) && len(L.reg.array) == old(len(L.reg.array)) && MaxArrayIndex == old(MaxArrayIndex) && RA == old(lb(L) + opA(inst)) && (forall k int :: RA < k && k < top(L) ==> L.reg.array[k] != nil)
 //@ loop 1 invariant forall k int :: 0 <= k && k < old(top(L)) ==> L.reg.array[k] == old(L.reg.array[k])
 //@ loop 1 invariant i > 1 ==> len(table.array) >= offset + i - 1
+
+// callR (behind L.Call / PCall / CallByParam, pcall, iterators, metamethod calls): the value in the function slot is
+// resolved by metaCall; the frame gets THAT function, the slot's own value is what is handed to pushCallFrame as the called
+// object (so a __call handler receives the object it was called on as its first argument), arguments and result base as
+// given. The run of the new frame (mainLoop, a function-typed field) and the final SetTop are behind the cut.
+//@ func (*LState).callR [C02 C04 C10]
+//@ requires ls != nil && ls.reg != nil && Inv_reg(ls.reg) && ls.stack != nil && $inv(ls.stack) && ls.G != nil && MetaOK(ls) && protosOK() && fnsValid() && nargs >= 0 && ls.reg.top - nargs - 1 >= 0 && (forall k int :: ls.reg.top - nargs - 1 <= k && k < ls.reg.top ==> valOK(ls.reg.array[k]))
+//@ assert@"if ls.G.MainThread == nil {" callfn(ncalls() - 1) == fnid("(*LState).pushCallFrame") && callargLV(ncalls() - 1, 2) == lv && lv == old(ls.reg.array[ls.reg.top - nargs - 1]) && ls.currentFrame != nil && (isFn(lv) ==> ls.currentFrame.Fn == fn(lv)) && (!isFn(lv) ==> mkFn(ls.currentFrame.Fn) == old(mtEvent(ls, ls.reg.array[ls.reg.top - nargs - 1], "__call")) && callargBool(ncalls() - 1, 3))
+//@ cut@"ls.mainLoop(ls" the interpreter loop (a function-typed field of the state) runs the frame; not verified here
+//@ raises when true
+//@ modifies everything
